@@ -1,7 +1,7 @@
 """C10 correspondence: distance (function and method forms) vs the exact squared distance of the Lean model."""
 import random, math
 from fractions import Fraction as F
-from .. import core, gen, admit
+from .. import core, gen, admit, interlib
 from ..gen import Gen, tok
 
 PAIRS = [('P', 'P'), ('P', 'L'), ('L', 'P'), ('L', 'L'), ('P', 'PL'), ('PL', 'P'), ('L', 'PL'), ('PL', 'L')]
@@ -15,7 +15,7 @@ def work(args):
     for i in range(n):
         ka, kb = PAIRS[(idx + i) % 8]
         A, B, cls = G.flat_pair(ka, kb)
-        a, b = impl.build(A), impl.build(B)
+        a, b = interlib.build_pair(impl, A, B)      # primed in-place move / shared-Point decoys for a third of the cases
         r1 = core.guarded(impl.call, impl.distance, a, b)
         r2 = core.guarded(impl.call, impl.distance, b, a)
         r3 = core.guarded(impl.call, lambda x, y: x.distance(y), a, b) if (ka != 'P' or kb == 'P') else None
@@ -80,7 +80,7 @@ def replay(ctx, case):
     from .. import impl
     c = case['case']
     A, B = gen.from_jsonable(c['a']), gen.from_jsonable(c['b'])
-    a, b = impl.build(A), impl.build(B)
+    a, b = interlib.build_pair(impl, A, B)
     ml = core.model_lines(['distsq %s %s' % (tok(A), tok(B))])[0]
     d2 = F(ml)
     r1, r2 = impl.call(impl.distance, a, b), impl.call(impl.distance, b, a)
